@@ -56,6 +56,9 @@ func c09post() map[string]postSummary {
 	return map[string]postSummary{
 		// readVarUint(data, info) returned a nil error ⇒ len(data) ≥ info.count   (verified in C09.R5)
 		"tls.readVarUint": func(e *wEng, call *ssa.Call) []lin {
+			if len(call.Call.Args) != 2 {
+				return nil
+			}
 			w := e.window(call.Call.Args[0])
 			if w == nil {
 				return nil
@@ -64,6 +67,9 @@ func c09post() map[string]postSummary {
 		},
 		// parseField(v, data, off, info) returned a nil error ⇒ off ≤ result ≤ len(data)   (verified in C09.R5)
 		"tls.parseField": func(e *wEng, call *ssa.Call) []lin {
+			if len(call.Call.Args) != 4 {
+				return nil
+			}
 			w := e.window(call.Call.Args[1])
 			ret := CallResult(call, 0)
 			if w == nil || ret == nil {
@@ -81,9 +87,60 @@ func countLeaf(e *wEng, info ssa.Value) lin {
 	return lin{t: map[string]int64{n: 1}}
 }
 
+// c09Shapes: the parameter lists the C09 rules and the window engine are written against
+// (b = []byte, i = integer, v = reflect.Value, f = *fieldInfo, o = *bytes.Buffer, * = anything).
+// The rules address the input buffer, the offset and the field info as parameters by position;
+// a function whose parameters have another shape (e.g. buffer and offset packed into a struct)
+// is not decided: the anchor fails closed instead of the rules indexing into the wrong values.
+var c09Shapes = map[string]string{
+	"tls.parseField":          "vbif",
+	"tls.marshalField":        "ovf",
+	"tls.readVarUint":         "bf",
+	"tls.UnmarshalWithParams": "b**",
+}
+
+func c09ShapeOK(fn *ssa.Function, shape string) bool {
+	if len(fn.Params) != len(shape) {
+		return false
+	}
+	for i, p := range fn.Params {
+		t := p.Type()
+		ok := false
+		switch shape[i] {
+		case '*':
+			ok = true
+		case 'b':
+			ok = isByteSlice(t)
+		case 'i':
+			ok = isIntType(t)
+		case 'v':
+			ok = t.String() == "reflect.Value"
+		case 'o':
+			ok = t.String() == "*bytes.Buffer"
+		case 'f':
+			_, isPtr := t.Underlying().(*types.Pointer)
+			ok = isPtr && strings.HasSuffix(t.String(), "tls.fieldInfo")
+		}
+		if !ok {
+			return false
+		}
+	}
+	return true
+}
+
 func newC09fn(r *Run, name string, vparam int, post map[string]postSummary) *c09fn {
 	fn := r.Fn(name)
 	if fn == nil {
+		return nil
+	}
+	if shape, ok := c09Shapes[name]; ok && !c09ShapeOK(fn, shape) {
+		var ps []string
+		for _, p := range fn.Params {
+			ps = append(ps, p.Type().String())
+		}
+		r.Fail("anchor-shape:"+name, r.FnPos(fn), "undecided: the parameters of "+name+" are ("+strings.Join(ps, ", ")+
+			"); the codec rules read the input, the offset and the field info as separate parameters (shape "+shape+
+			": b = []byte, i = integer, v = reflect.Value, f = *fieldInfo, o = *bytes.Buffer)")
 		return nil
 	}
 	c := &c09fn{fn: fn, e: newWEng(r, fn, post), name: short(name), temps: structTemps(fn)}
@@ -276,27 +333,36 @@ func beTree(e *wEng, v ssa.Value, acc []access) ([]beTerm, bool) {
 	return nil, false
 }
 
-// accumulatorShape: v = φ(0, (φ << 8) | data[i]) with i = φ(0, i+1) bounded by i < info.count.
+// accumulatorShape: the value returned is Σ data[i]·256^(count−1−i) over i = 0 … info.count−1.
+//
+// The accumulator is acc = φ(0, (acc << 8) | data[i]) in the block of the counter i = φ(0, i+1),
+// the step executes exactly while i < info.count, and the value returned is the accumulator once
+// no further iteration is due:
+//   - loop tested at its head (`for i := 0; i < n; i++`): v is acc itself, returned where i ≥ count;
+//   - loop tested before the first iteration and after each one (`for i := range n`): v is a φ
+//     at the loop's exit that merges the constant 0 over edges on which count ≤ 0 (no iteration)
+//     with the stepped value over edges on which i+1 ≥ count (that was the last iteration).
 func accumulatorShape(rv *c09fn, v ssa.Value) (bool, string) {
 	e := rv.e
 	ph, ok := v.(*ssa.Phi)
 	if !ok || len(ph.Edges) != 2 {
 		return false, "result is not a loop accumulator: " + e.r.D.D(v)
 	}
-	var step *ssa.BinOp
-	zero := false
-	for _, ed := range ph.Edges {
-		if c, ok := ed.(*ssa.Const); ok && constString(c) == "0" {
-			zero = true
-		} else if b, ok := ed.(*ssa.BinOp); ok && (b.Op.String() == "|" || b.Op.String() == "+") {
-			step = b
+	split := func(p *ssa.Phi) (step *ssa.BinOp, zero bool) {
+		for _, ed := range p.Edges {
+			if c, ok := ed.(*ssa.Const); ok && constString(c) == "0" {
+				zero = true
+			} else if b, ok := ed.(*ssa.BinOp); ok && (b.Op.String() == "|" || b.Op.String() == "+") {
+				step = b
+			}
 		}
+		return
 	}
+	step, zero := split(ph)
 	if !zero || step == nil {
 		return false, "accumulator does not start at 0 / is not result<<8 | byte"
 	}
-	var idx ssa.Value
-	shl := false
+	var idx, shifted ssa.Value
 	for _, op := range []ssa.Value{step.X, step.Y} {
 		for {
 			cv, ok := op.(*ssa.Convert)
@@ -307,8 +373,8 @@ func accumulatorShape(rv *c09fn, v ssa.Value) (bool, string) {
 		}
 		switch x := op.(type) {
 		case *ssa.BinOp:
-			if s, ok := e.lin(x.Y).isConst(); ok && x.Op.String() == "<<" && s == 8 && x.X == ssa.Value(ph) {
-				shl = true
+			if s, ok := e.lin(x.Y).isConst(); ok && x.Op.String() == "<<" && s == 8 {
+				shifted = x.X
 			}
 		case *ssa.UnOp:
 			if ia, ok := x.X.(*ssa.IndexAddr); ok && ia.X == ssa.Value(rv.fn.Params[0]) {
@@ -316,11 +382,18 @@ func accumulatorShape(rv *c09fn, v ssa.Value) (bool, string) {
 			}
 		}
 	}
+	acc := ph // the accumulator proper
+	if ap, isPhi := shifted.(*ssa.Phi); isPhi && ap != ph && len(ap.Edges) == 2 {
+		// v merges the loop's exits; the accumulator is the φ that is shifted
+		if st2, z2 := split(ap); st2 == step && z2 {
+			acc = ap
+		}
+	}
 	ip, isPhi := idx.(*ssa.Phi)
-	if !shl || !isPhi || !isInduction(ip) || ip.Block() != ph.Block() {
+	if shifted != ssa.Value(acc) || !isPhi || !isInduction(ip) || ip.Block() != acc.Block() {
 		return false, "step is not (result << 8) | data[i] over the loop counter"
 	}
-	// counter 0,1,2,… and loop continues exactly while i < info.count
+	// counter 0,1,2,… and the step executes exactly while i < info.count
 	okStart, okStep := false, false
 	for _, ed := range ip.Edges {
 		if c, ok := ed.(*ssa.Const); ok && constString(c) == "0" {
@@ -336,16 +409,39 @@ func accumulatorShape(rv *c09fn, v ssa.Value) (bool, string) {
 	body := step.Block()
 	facts := e.factsAt(body)
 	inBody := e.entails(cnt.plus(e.lin(ip), -1).addc(-1), facts) && !e.entails(cnt.plus(e.lin(ip), -1).addc(-2), facts)
-	// after the loop: i ≥ count
-	var after []lin
-	for _, b := range rv.fn.Blocks {
-		for _, in := range b.Instrs {
-			if ret, ok := in.(*ssa.Return); ok && len(ret.Results) > 0 && ret.Results[0] == v {
-				after = e.factsAt(b)
+	exit := false
+	if acc == ph {
+		// after the loop: i ≥ count
+		var after []lin
+		for _, b := range rv.fn.Blocks {
+			for _, in := range b.Instrs {
+				if ret, ok := in.(*ssa.Return); ok && len(ret.Results) > 0 && ret.Results[0] == v {
+					after = e.factsAt(b)
+				}
 			}
 		}
+		exit = e.entails(e.lin(ip).plus(cnt, -1), after)
+	} else {
+		// v's block is outside the loop; every edge into it either skips the loop because no
+		// iteration is due (value 0) or leaves it after the last iteration (value: the step)
+		nZero, nLast := 0, 0
+		exit = !acc.Block().Dominates(ph.Block())
+		for j, ed := range ph.Edges {
+			P := ph.Block().Preds[j]
+			ef := e.edgeFacts(P, ph.Block())
+			switch {
+			case ed == ssa.Value(step):
+				nLast++
+				exit = exit && e.entails(e.lin(ip).addc(1).plus(cnt, -1), ef)
+			case acc.Block() != P && !acc.Block().Dominates(P):
+				nZero++ // the constant 0 (split), over an edge from outside the loop
+				exit = exit && e.entails(linConst(0).plus(cnt, -1), ef)
+			default:
+				exit = false
+			}
+		}
+		exit = exit && nZero == 1 && nLast == 1
 	}
-	exit := e.entails(e.lin(ip).plus(cnt, -1), after)
 	if okStart && okStep && inBody && exit {
 		return true, "result = Σ data[i]·256^(count−1−i) for i = 0 … info.count−1"
 	}
@@ -422,6 +518,34 @@ func emitsIn(r *Run, mf *c09fn, label string) []emit {
 	return out
 }
 
+// counterCovers: ph counts 0, 1, 2, … and the block `at` executes exactly for the values below n:
+// every entry of ph is the constant 0 or ph + 1, the guards that hold at `at` entail ph < n and do
+// not entail ph < n − 1 (a loop that stops one short leaves the last element out).  Both loop
+// forms qualify: tested at the head, or before the first and after each iteration.
+func (c *c09fn) counterCovers(ph *ssa.Phi, at *ssa.BasicBlock, n lin) bool {
+	e := c.e
+	if ph == nil || !isInduction(ph) {
+		return false
+	}
+	for _, ed := range ph.Edges {
+		switch x := ed.(type) {
+		case *ssa.Const:
+			if constString(x) != "0" {
+				return false
+			}
+		case *ssa.BinOp:
+			if x.Op != token.ADD || x.X != ssa.Value(ph) || !isConstInt(x.Y, 1) {
+				return false
+			}
+		default:
+			return false
+		}
+	}
+	facts := e.factsAt(at)
+	room := n.plus(e.lin(ph), -1).addc(-1) // n − i − 1
+	return e.entails(e.lin(ph), facts) && e.entails(room, facts) && !e.entails(room.addc(-1), facts)
+}
+
 // c09ByteFill: the buffer behind the write is filled by buf[i] = v.Index(i).Uint() for i < v.Len().
 func c09ByteFill(r *Run, mf *c09fn, em emit) bool {
 	if em.w == nil {
@@ -440,7 +564,8 @@ func c09ByteFill(r *Run, mf *c09fn, em emit) bool {
 					}
 					if uc, ok := src.(*ssa.Call); ok && CalleeOf(uc) == "(reflect.Value).Uint" {
 						if ic, ok := uc.Call.Args[0].(*ssa.Call); ok && CalleeOf(ic) == "(reflect.Value).Index" && ic.Call.Args[0] == ssa.Value(mf.fn.Params[1]) && ic.Call.Args[1] == ia.Index {
-							if ph, ok := ia.Index.(*ssa.Phi); ok && isInduction(ph) {
+							// … for every i below the length of what is written
+							if ph, ok := ia.Index.(*ssa.Phi); ok && mf.counterCovers(ph, st.Block(), em.n) {
 								n++
 							}
 						}
@@ -712,8 +837,9 @@ func (c *c09fn) blocksTesting(match func(ci *CondInfo) bool) []*ssa.BasicBlock {
 }
 
 // table is Describer.Table with the rule atoms bound by glob to the atom keys (operands) as they
-// read through struct temporaries; the valuation handed to the walk is over the actual keys.
-func (c *c09fn) table(from *ssa.BasicBlock, stop map[*ssa.BasicBlock]bool, atoms []RuleAtom,
+// read through struct temporaries; the valuation handed to the walk is over the actual keys
+// (base: atoms fixed in every row).
+func (c *c09fn) table(from *ssa.BasicBlock, stop map[*ssa.BasicBlock]bool, base Sigma, atoms []RuleAtom,
 	visit func(val map[string]string, r *Reach, s Sigma)) error {
 	d, fn := c.e.r.D, c.fn
 	found := d.AtomsOf(fn)
@@ -778,6 +904,9 @@ func (c *c09fn) table(from *ssa.BasicBlock, stop map[*ssa.BasicBlock]bool, atoms
 	for {
 		val := map[string]string{}
 		s := Sigma{}
+		for k, v := range base {
+			s[k] = v
+		}
 		for i, a := range atoms {
 			v := doms[i][idx[i]]
 			val[a.Name] = v
@@ -810,4 +939,138 @@ func (c *c09fn) table(from *ssa.BasicBlock, stop map[*ssa.BasicBlock]bool, atoms
 		}
 	}
 	return nil
+}
+
+// ---- loops -------------------------------------------------------------------------------
+
+// loopBlocks: the natural loop of head (head and every block head dominates that reaches a
+// back edge into head without leaving through head).
+func loopBlocks(head *ssa.BasicBlock) map[*ssa.BasicBlock]bool {
+	in := map[*ssa.BasicBlock]bool{head: true}
+	var work []*ssa.BasicBlock
+	for _, p := range head.Preds {
+		if head.Dominates(p) && !in[p] {
+			in[p] = true
+			work = append(work, p)
+		}
+	}
+	for len(work) > 0 {
+		b := work[len(work)-1]
+		work = work[:len(work)-1]
+		for _, p := range b.Preds {
+			if !in[p] && head.Dominates(p) {
+				in[p] = true
+				work = append(work, p)
+			}
+		}
+	}
+	return in
+}
+
+// loopForm describes how the loop headed by head decides about the next iteration.
+//
+//   - tested at its head (`for i := 0; i < n; i++`): the back edges are jumps; nothing to add.
+//   - tested before the first iteration and after each one (go/ssa's `for i := range n`): the
+//     latch ends in `if F(i+k) goto head else exit`, and the loop is entered from a guard
+//     `if F(i0) goto head else exit'` that applies the same test F to the counter's initial
+//     value i0.  more is the valuation under which every such latch goes on to the next
+//     iteration ("there is a next element"); guards are the entry blocks whose other edge is
+//     taken exactly when no iteration is due — they belong to the loop construct: code reached
+//     over that edge comes after the (empty) loop.
+type loopForm struct {
+	blocks map[*ssa.BasicBlock]bool
+	more   Sigma
+	guards map[*ssa.BasicBlock]bool
+}
+
+func (c *c09fn) loopForm(head *ssa.BasicBlock) loopForm {
+	e := c.e
+	lf := loopForm{blocks: loopBlocks(head), more: Sigma{}, guards: map[*ssa.BasicBlock]bool{}}
+	for _, bi := range head.Instrs {
+		ph, ok := bi.(*ssa.Phi)
+		if !ok {
+			break
+		}
+		if !isInduction(ph) || isRangePre(ph) || !isIntType(ph.Type()) {
+			continue
+		}
+		self, name := e.leaf(ph), e.leafName(ph)
+		// F as a function of the incoming value x: read off a latch, n − x − 1 ≥ 0 for `x < n`
+		var F *lin
+		for j, ed := range ph.Edges {
+			P := head.Preds[j]
+			if !lf.blocks[P] || len(P.Instrs) == 0 {
+				continue
+			}
+			ifi, isIf := P.Instrs[len(P.Instrs)-1].(*ssa.If)
+			if !isIf || len(P.Succs) != 2 || P.Succs[0] == P.Succs[1] {
+				continue
+			}
+			in := e.lin(ed)
+			fs := e.edgeCondFacts(P, head)
+			if len(fs) != 1 || in.t[name] != 1 || len(in.plus(self, -1).t) != 0 || fs[0].t[name] == 0 || !invariantCond(ifi.Cond, ph, head) {
+				continue // not a test of the advanced counter against a loop-invariant bound (e.g. a break condition)
+			}
+			ci := e.r.D.Classify(ifi.Cond)
+			for _, d := range domains[ci.Kind] {
+				if ci.True[d] == (P.Succs[0] == head) {
+					lf.more[ci.Key] = d
+					break
+				}
+			}
+			k := in.plus(self, -1).c
+			f := fs[0].plus(linConst(k), -fs[0].t[name]) // over x = i + k
+			if F != nil && !F.eq(f) {
+				F = nil
+				break
+			}
+			F = &f
+		}
+		if F == nil {
+			continue
+		}
+		for j, ed := range ph.Edges {
+			P := head.Preds[j]
+			if lf.blocks[P] {
+				continue
+			}
+			fs := e.edgeCondFacts(P, head)
+			x0 := e.lin(ed)
+			cf := F.t[name]
+			if len(fs) == 1 && x0.t[name] == 0 && fs[0].eq(F.plus(self, -cf).plus(x0, cf)) {
+				lf.guards[P] = true
+			}
+		}
+	}
+	return lf
+}
+
+// afterLoop: block b comes after the loop construct — it is outside it, cannot lead back into
+// it, and every path from the entry block `from` to b passes through the construct (the loop
+// itself or a guard that skips it because no iteration is due).
+func (lf loopForm) afterLoop(from, head, b *ssa.BasicBlock) bool {
+	if lf.blocks[b] || lf.guards[b] {
+		return false
+	}
+	reaches := func(src, dst *ssa.BasicBlock, avoid func(*ssa.BasicBlock) bool) bool {
+		seen := map[*ssa.BasicBlock]bool{}
+		work := []*ssa.BasicBlock{src}
+		for len(work) > 0 {
+			x := work[len(work)-1]
+			work = work[:len(work)-1]
+			if seen[x] || avoid != nil && avoid(x) {
+				continue
+			}
+			seen[x] = true
+			if x == dst {
+				return true
+			}
+			work = append(work, x.Succs...)
+		}
+		return false
+	}
+	if reaches(b, head, nil) {
+		return false
+	}
+	return !reaches(from, b, func(x *ssa.BasicBlock) bool { return lf.blocks[x] || lf.guards[x] })
 }
